@@ -66,7 +66,7 @@ CHECKS = {
  "C19": ("exploration", "recording-sink monitor over generated streams x splittings x concurrent tasks (disjoint payload alphabets); differential results across formats in child processes and through the binary; race detector",
          "every Write reaching a synchronised sink is checked for whole prefixed lines, attribution and content (after the statement's normalisation) against the bytes written; raw is compared byte for byte; outcomes x formats must give the same recorded result and never crash.",
          "the ANSI language is the decorator's own regular expression, applied after re-joining on both sides", "DESIGN.md §4 C19"),
- "C20": ("exploration", "strace syscall monitor for the registered path set vs the checker's own glob matcher; event histories judged against an independent fsnotify reference observer",
+ "C20": ("exploration", "strace syscall monitor for the registered path set vs the checker's own glob matcher; event histories judged against an independent fsnotify reference observer; race detector over watcher construction in a -race build of taskctl",
          "generated trees and pattern sets: inotify_add_watch paths must equal the selected set; for every subset of event types, paced histories of file operations must run the task exactly for subscribed events with the right EventName/EventPath.",
          "multiplicity-tolerant oracle; multi-bit events, directory children and paths after remove/rename are don't-cares", "DESIGN.md §4 C20"),
 }
